@@ -33,7 +33,7 @@ SPEC = {
 }
 
 KINDS = ['date', 'description', 'amount', 'location', 'ca', 'cb', 'skip']
-DATE_FORMATS = [None, '%b %d, %Y', '%A, %d %B %Y', '%m/%d/%Y', '%Y-%m-%d', '%d.%m.%Y', '%d %b %y', '%m/%d/%y', '%Y%m%d', '%d-%b-%Y %H:%M']
+DATE_FORMATS = [None, '%d  %b  %y', '%d\t%b %y', '%d %b  %y', '%b %d,  %Y', '%b %d, %Y', '%A, %d %B %Y', '%m/%d/%Y', '%Y-%m-%d', '%d.%m.%Y', '%d %b %y', '%m/%d/%y', '%Y%m%d', '%d-%b-%Y %H:%M']
 CUSTOM_NAMES = [('type', 'merchant'), ('Cardholder', 'memo'), ('txn_type', 'Payee2'), ('a', 'b')]
 
 
@@ -296,6 +296,8 @@ def run(rec, shard, nshards, t):
         seq = (base + ['skip'] * max(0, w - len(base)))[:max(w, len(base))]
         rnd.shuffle(seq)
         check_arrangement(rec, seq, rnd, rnd.choice(['valid', 'valid', 'none', 'dangling']))
+    for _ in range(40 if t == 'quick' else 2000):
+        whitespace_twins(rec, rnd)
     # Part 2 - inspect
     tmp = tempfile.mkdtemp(prefix='vt-c18-')
     try:
@@ -322,6 +324,29 @@ def run(rec, shard, nshards, t):
         probe_comma(rec)
 
 
+def whitespace_twins(rec, rnd):
+    """Format strings that differ only in the width / kind of blanks INSIDE a date format are different format strings:
+    parsed one after the other in one process, each must come back with its own date format (no normalising cache)."""
+    from tally.format_parser import parse_format_string
+    base = rnd.choice(['{date:%s}, {description}, {amount}', '{_},{date:%s},{-amount},{description}', '{date:%s}, {merchant}, {amount}'])
+    template = '{merchant}' if 'merchant' in base else None
+    fmts = ['%d %b %y', '%d  %b  %y', '%d\t%b %y', '%d %b  %y', '%b %d, %Y', '%b  %d,  %Y']
+    order = [rnd.choice(fmts) for _ in range(6)]
+    for f in order:
+        rec.case()
+        rec.count('whitespace_twin_parses')
+        text = (base.replace(', ', ' ,  ') if rnd.random() < .5 else base) % f
+        try:
+            spec = parse_format_string(text, template)
+        except ValueError as e:
+            rec.violation('rejected-valid', f'{text!r}: {e}', {'kind': 'twins'})
+            return
+        if spec.date_format != f:
+            rec.violation('wrong-date_format:whitespace-twin', f'{text!r} parsed after {order}: date_format {spec.date_format!r}, written {f!r}', {'kind': 'twins'})
+            return
+    rec.interesting('twins|' + base + '|' + '|'.join(order))
+
+
 def probe_comma(rec):
     """Known limitation probe: a date format containing a comma."""
     from tally.format_parser import parse_format_string
@@ -337,7 +362,10 @@ def probe_comma(rec):
 def replay(rec, case):
     core.import_tally()
     rnd = core.rng_for('C18', 'replay')
-    if case['kind'] == 'comma':
+    if case['kind'] == 'twins':
+        for _ in range(500):
+            whitespace_twins(rec, rnd)
+    elif case['kind'] == 'comma':
         probe_comma(rec)
     elif case['kind'] == 'arr':
         from tally.format_parser import parse_format_string
